@@ -315,7 +315,8 @@ def import_connection_target(
 def import_concat(pconc: vckt.Concat, module: Module) -> Concat:
     """Import a (potentially nested) Concatenation"""
     parts = []
-    for ppart in pconc.parts:
+    # VLSIR `Concat`s list their most-significant part first, Hdl21's their least-significant.
+    for ppart in reversed(pconc.parts):
         part = import_connection_target(ppart, module)
         parts.append(part)
     return Concat(*parts)
